@@ -7,7 +7,7 @@ REG13 = {
  'C13': dict(
     text='Lean 4 theorems over a model of sequence_alignment.py: the rolling-row DP equals the minimum cost over ALL '
          'explicit alignments (every pair of sequences, every cost triple, no size bound); returned alignments project to '
-         'both inputs and have that cost; corollaries: distance 0 to itself for every cost table, unit distance 0 iff the sequences are equal, length difference <= unit distance <= length of the longer sequence; stats sum to the distance; the line-end classification of a summary (get_match_type, get_non_matching_suffix, BoundaryErrorsSummary) is modelled and always produced with exactly one flag - its two AssertionErrors are unreachable because an optimal alignment never ends in errors holding an insertion and a deletion together (ending_total); aggregation is addition (numeric fields and the confusion table as a bag of alignment pairs); the substring alignment '
+         'both inputs and have that cost; corollaries: distance 0 to itself for every cost table, unit distance 0 iff the sequences are equal, length difference <= unit distance <= length of the longer sequence, triangle inequality (composition of alignments; with symmetry and zero-iff-equal the unit distance is a metric); stats sum to the distance; the line-end classification of a summary (get_match_type, get_non_matching_suffix, BoundaryErrorsSummary) is modelled and always produced with exactly one flag - its two AssertionErrors are unreachable because an optimal alignment never ends in errors holding an insertion and a deletion together (ending_total); aggregation is addition (numeric fields and the confusion table as a bag of alignment pairs); the substring alignment '
          '(levenshtein_alignment_substring: free prefix/suffix, suffix_beginning scan, back-trace) returns pre ++ core ++ suf with free '
          'ends and core cost = the minimum over all substrings, for every cost triple. Model tied to the code by an '
          'exact correspondence check (exhaustive small scope + random) and an independent oracle on the real code.',
